@@ -286,7 +286,7 @@ def summarise(meta, res):
 def run_property(prop, tier, seed):
     out = {"obligations": 0, "discharged": 0, "results": [], "failures": [], "crashes": [], "undecided": [],
            "functions": [], "assumptions": [], "trusted_base": [], "lemmas": [], "guards": {},
-           "z3_version": z3.get_version_string(), "level_if_all_discharged": "proof"}
+           "z3_version": z3.get_version_string(), "level_if_all_discharged": _claimed_level(prop)}
     try:
         reg = load_registry()
         contracts = [c for c in reg.by_key.values() if prop in c.props]
@@ -360,6 +360,14 @@ def run_property(prop, tier, seed):
     except Exception:
         out["crashes"].append(traceback.format_exc()[-3000:])
     return out
+
+
+def _claimed_level(prop):
+    try:
+        from vlib import props
+        return props.P[prop]["cat"]
+    except Exception:
+        return "other"
 
 
 def load_baseline():
